@@ -7,7 +7,8 @@ Entities are threads and asyncio tasks.  Per entity the pipeline keeps a nesting
 `with` blocks of the code: idle → in a trace call (`on_trace_call`) → in a command loop (`on_cmdloop`) → at a
 prompt (`on_prompt`); every block emits its end event in `finally`, so an abort (KeyboardInterrupt delivered
 into a prompt, `BdbQuit`, …) unwinds whatever is open.  Counters are global: trace numbers, trace-call numbers
-and prompt numbers each come from one `itertools.count` (atomic under the GIL).
+and prompt numbers each come from one `itertools.count`; drawing a number is atomic under the GIL, but drawing it and
+emitting the event that carries it are two steps, and other threads may run in between.
 A run is a list of labels `(entity, action)`: every interleaving of threads is a label list.
 The emitted events reuse the event type of model C, so that "the stream is well formed" is literally "the
 registrars' grammar `Reg.wrun` accepts it".
@@ -22,23 +23,39 @@ structure Ent where
   deriving DecidableEq, Repr
 
 inductive Phase where
+  | numbered                              -- thread/task numbers and trace number drawn; `OnStartTrace` not yet emitted
   | idle
+  | callDrawn (c : CallInfo)              -- trace-call number drawn; `OnStartTraceCall` not yet emitted
   | call (c : CallInfo)
-  | cmdloop (c : CallInfo) (prompted : Bool)
+  | cmdloop (c : CallInfo)
+  | promptDrawn (c : CallInfo) (p : Nat)  -- prompt number drawn; `OnStartPrompt` not yet emitted
   | prompt (c : CallInfo) (p : Nat)
   deriving DecidableEq, Repr
+
+/-- inside at least one `with` block whose end event is still to come -/
+def Phase.isOpen : Phase → Bool
+  | .call _ | .cmdloop _ | .promptDrawn _ _ | .prompt _ _ => true
+  | _ => false
 
 structure TraceSt where
   ent : Ent
   traceNo : Nat
   threadNo : Nat
   taskNo : Option Nat
-  phase : Phase := .idle
+  phase : Phase := .numbered
   ended : Bool := false
+  deriving DecidableEq, Repr
+
+/-- an entity that has drawn its thread / task numbers (`ThreadTaskIdComposer`) but not yet its trace number -/
+structure Newcomer where
+  ent : Ent
+  threadNo : Nat
+  taskNo : Option Nat
   deriving DecidableEq, Repr
 
 structure St where
   traces : List TraceSt := []
+  newcomers : List Newcomer := []
   nextTrace : Nat := 1
   nextCall : Nat := 1
   nextPrompt : Nat := 1
@@ -48,19 +65,36 @@ structure St where
   out : List Ev := []                               -- emitted events, in order
   deriving DecidableEq, Repr
 
+/-- Every number is *drawn* from its counter in one step (atomic under the GIL) and *used* — put into an event that is
+handed to the queue — in a later step of the same entity; other entities may act in between, so the order in which
+numbers appear in the stream is not the order in which they were drawn.  The drawing steps emit nothing: an observer of
+the stream does not see them.  Every step emits at most one event: the events one entity emits back to back (leaving
+nested blocks) can be separated in the stream by events of other entities. -/
 inductive Act where
-  | enter (file line frame event : Nat)   -- the trace function is invoked for an accepted frame event
+  | drawIds                               -- hidden: `ThreadTaskIdComposer()` numbers the thread / task
+  | drawTrace                             -- hidden: `TraceNoCounter()`; the entity is mapped to its trace number
+  | emitStart                             -- `on_start_trace`: `OnStartTrace` is emitted
+  | drawCall (file line frame event : Nat)   -- hidden: the trace function is invoked for an accepted frame event; `TraceCallNoCounter()`
+  | emitCall                              -- `with on_trace_call`: `OnStartTraceCall` is emitted
   | stop                                  -- Pdb decides to stop: `cmdloop()` inside the trace call
   | stopRefused                           -- `cmdloop()` outside a trace call (patched `f_trace`): refused, nothing emitted
-  | prompt (text : Nat)                   -- Pdb asks for a command
-  | answer (cmd : Nat) (resumes : Bool)   -- a command arrives; a resuming command ends the command loop
-  | leave                                 -- the trace function returns
-  | abort                                 -- an exception unwinds the open blocks (KeyboardInterrupt at a prompt, …)
+  | drawPrompt                            -- hidden: Pdb asks for a command; `PromptNoCounter()`
+  | emitPrompt (text : Nat)               -- `with on_prompt`: `OnStartPrompt` is emitted
+  | answer (cmd : Nat)                    -- `on_prompt` is left: a command arrived, or an exception unwinds the block (command `''`)
+  | endLoop                               -- `on_cmdloop` is left: Pdb resumes the script, or an exception unwinds the block
+  | leave                                 -- `on_trace_call` is left: the trace function returns or an exception unwinds the block
   | finish                                -- the entity has ended: done-callback (or the main thread at context exit)
   | write (text : Nat)                    -- the entity writes a whole line to stdout
   deriving DecidableEq, Repr
 
+/-- the actions an observer of the stream cannot see -/
+def Act.hidden : Act → Bool
+  | .drawIds | .drawTrace | .drawCall .. | .drawPrompt => true
+  | _ => false
+
 def findTrace (ts : List TraceSt) (e : Ent) : Option TraceSt := ts.find? fun t => t.ent = e ∧ !t.ended
+
+def findNewcomer (ns : List Newcomer) (e : Ent) : Option Newcomer := ns.find? fun n => n.ent = e
 
 def setTrace (ts : List TraceSt) (t : TraceSt) : List TraceSt :=
   ts.map fun x => if x.traceNo = t.traceNo then t else x
@@ -77,37 +111,63 @@ def taskNoOf (s : St) (tn : Nat) : Nat × St :=
   | some e => (e.2, { s with taskCounters := s.taskCounters.map fun x => if x.1 = tn then (tn, e.2 + 1) else x })
   | none => (1, { s with taskCounters := s.taskCounters ++ [(tn, 2)] })
 
-/-- events emitted while unwinding the open blocks of a phase (innermost first) -/
+/-- events emitted while an exception unwinds the open blocks of a phase (innermost first) -/
 def unwind (t : Nat) : Phase → List Ev
-  | .idle => []
+  | .numbered | .idle | .callDrawn _ => []
   | .call c => [.endCall t c.callNo]
-  | .cmdloop c _ => [.endCmdloop t c.callNo, .endCall t c.callNo]
+  | .cmdloop c | .promptDrawn c _ => [.endCmdloop t c.callNo, .endCall t c.callNo]
   | .prompt c p => [.endPrompt t p 0, .endCmdloop t c.callNo, .endCall t c.callNo]      -- `command = ''`
 
+/-- the actions by which an exception (KeyboardInterrupt delivered into a prompt, `BdbQuit`, …) unwinds a phase: every
+`with` block emits its end event on the way out, one event per step — other entities may act in between -/
+def unwindActs : Phase → List Act
+  | .numbered | .idle | .callDrawn _ => []
+  | .call _ => [.leave]
+  | .cmdloop _ | .promptDrawn _ _ => [.endLoop, .leave]
+  | .prompt _ _ => [.answer 0, .endLoop, .leave]
+
 def step (s : St) (e : Ent) : Act → Option St
-  | .enter file line frame event =>
-    -- first event of an entity: number it and emit OnStartTrace
-    let (tr, s1) : TraceSt × St :=
-      match findTrace s.traces e with
-      | some tr => (tr, s)
-      | none =>
-        let (tn, sa) := threadNoOf s e.thread
-        let (tk, sb) : Option Nat × St := match e.task with
-          | none => (none, sa)
-          | some _ => let (k, sb) := taskNoOf sa tn; (some k, sb)
-        let tr : TraceSt := { ent := e, traceNo := sb.nextTrace, threadNo := tn, taskNo := tk }
-        (tr, { sb with traces := sb.traces ++ [tr], nextTrace := sb.nextTrace + 1,
-                       out := sb.out ++ [.startTrace tr.traceNo tn tk] })
-    match tr.phase with
-    | .idle =>
-      let c : CallInfo := { callNo := s1.nextCall, file := file, line := line, frame := frame, event := event }
-      some { s1 with traces := setTrace s1.traces { tr with phase := .call c }, nextCall := s1.nextCall + 1,
-                     out := s1.out ++ [.startCall tr.traceNo c] }
-    | _ => none                                        -- no nested trace calls within one trace
+  | .drawIds =>
+    -- first accepted frame event of an entity that has no live trace
+    match findTrace s.traces e, findNewcomer s.newcomers e with
+    | none, none =>
+      let (tn, sa) := threadNoOf s e.thread
+      let (tk, sb) : Option Nat × St := match e.task with
+        | none => (none, sa)
+        | some _ => let (k, sb) := taskNoOf sa tn; (some k, sb)
+      some { sb with newcomers := sb.newcomers ++ [{ ent := e, threadNo := tn, taskNo := tk }] }
+    | _, _ => none
+  | .drawTrace =>
+    match findNewcomer s.newcomers e with
+    | some n =>
+      let tr : TraceSt := { ent := e, traceNo := s.nextTrace, threadNo := n.threadNo, taskNo := n.taskNo }
+      some { s with newcomers := s.newcomers.filter (fun x => x.ent ≠ e), traces := s.traces ++ [tr], nextTrace := s.nextTrace + 1 }
+    | none => none
+  | .emitStart =>
+    match findTrace s.traces e with
+    | some tr => (match tr.phase with
+      | .numbered => some { s with traces := setTrace s.traces { tr with phase := .idle },
+                                   out := s.out ++ [.startTrace tr.traceNo tr.threadNo tr.taskNo] }
+      | _ => none)
+    | none => none
+  | .drawCall file line frame event =>
+    match findTrace s.traces e with
+    | some tr => (match tr.phase with
+      | .idle =>
+        let c : CallInfo := { callNo := s.nextCall, file := file, line := line, frame := frame, event := event }
+        some { s with traces := setTrace s.traces { tr with phase := .callDrawn c }, nextCall := s.nextCall + 1 }
+      | _ => none)                                       -- no nested trace calls within one trace
+    | none => none
+  | .emitCall =>
+    match findTrace s.traces e with
+    | some tr => (match tr.phase with
+      | .callDrawn c => some { s with traces := setTrace s.traces { tr with phase := .call c }, out := s.out ++ [.startCall tr.traceNo c] }
+      | _ => none)
+    | none => none
   | .stop =>
     match findTrace s.traces e with
     | some tr => (match tr.phase with
-      | .call c => some { s with traces := setTrace s.traces { tr with phase := .cmdloop c false },
+      | .call c => some { s with traces := setTrace s.traces { tr with phase := .cmdloop c },
                                   out := s.out ++ [.startCmdloop tr.traceNo c.callNo] }
       | _ => none)
     | none => none
@@ -115,24 +175,32 @@ def step (s : St) (e : Ent) : Act → Option St
     match findTrace s.traces e with
     | some tr => (match tr.phase with | .idle => some s | _ => none)
     | none => some s
-  | .prompt text =>
+  | .drawPrompt =>
     match findTrace s.traces e with
     | some tr => (match tr.phase with
-      | .cmdloop c _ => some { s with traces := setTrace s.traces { tr with phase := .prompt c s.nextPrompt },
-                                       nextPrompt := s.nextPrompt + 1,
-                                       out := s.out ++ [.startPrompt tr.traceNo c.callNo s.nextPrompt text] }
+      | .cmdloop c => some { s with traces := setTrace s.traces { tr with phase := .promptDrawn c s.nextPrompt },
+                                       nextPrompt := s.nextPrompt + 1 }
       | _ => none)
     | none => none
-  | .answer cmd resumes =>
+  | .emitPrompt text =>
     match findTrace s.traces e with
     | some tr => (match tr.phase with
-      | .prompt c p =>
-        if resumes then
-          some { s with traces := setTrace s.traces { tr with phase := .call c },
-                        out := s.out ++ [.endPrompt tr.traceNo p cmd, .endCmdloop tr.traceNo c.callNo] }
-        else
-          some { s with traces := setTrace s.traces { tr with phase := .cmdloop c true },
-                        out := s.out ++ [.endPrompt tr.traceNo p cmd] }
+      | .promptDrawn c p => some { s with traces := setTrace s.traces { tr with phase := .prompt c p },
+                                          out := s.out ++ [.startPrompt tr.traceNo c.callNo p text] }
+      | _ => none)
+    | none => none
+  | .answer cmd =>
+    match findTrace s.traces e with
+    | some tr => (match tr.phase with
+      | .prompt c p => some { s with traces := setTrace s.traces { tr with phase := .cmdloop c },
+                                      out := s.out ++ [.endPrompt tr.traceNo p cmd] }
+      | _ => none)
+    | none => none
+  | .endLoop =>
+    match findTrace s.traces e with
+    | some tr => (match tr.phase with
+      | .cmdloop c | .promptDrawn c _ =>
+        some { s with traces := setTrace s.traces { tr with phase := .call c }, out := s.out ++ [.endCmdloop tr.traceNo c.callNo] }
       | _ => none)
     | none => none
   | .leave =>
@@ -140,12 +208,6 @@ def step (s : St) (e : Ent) : Act → Option St
     | some tr => (match tr.phase with
       | .call c => some { s with traces := setTrace s.traces { tr with phase := .idle }, out := s.out ++ [.endCall tr.traceNo c.callNo] }
       | _ => none)
-    | none => none
-  | .abort =>
-    match findTrace s.traces e with
-    | some tr => (match tr.phase with
-      | .idle => none
-      | ph => some { s with traces := setTrace s.traces { tr with phase := .idle }, out := s.out ++ unwind tr.traceNo ph })
     | none => none
   | .finish =>
     match findTrace s.traces e with
